@@ -347,8 +347,10 @@ def check_property(prop: str, tier: str) -> int:
     if violations:
         return 1
     if harness_errors:
-        for h in harness_errors:
-            print("HARNESS-ERROR:", h)
+        for h in harness_errors[:6]:
+            print("HARNESS-ERROR:", h[:700])
+        if len(harness_errors) > 6:
+            print("HARNESS-ERROR: ... %d more" % (len(harness_errors) - 6))
         return 3
     return 0
 
